@@ -1,3 +1,4 @@
+\* history-free (VIEW StateView): builder sequences of ANY length, <= 2 routes per sub-app, 1 host sub-app, 1 Cors value
 CONSTANTS
   Pats = {"/a", "/*"}
   HKinds = {"ownO"}
